@@ -7,5 +7,14 @@ def run(op, a):
     if op == 1:
         script, tv, idx, ht, amount, mutable = a[0], a[1], a[2], a[3], a[4], 0
         t = tx_from_val(tv, mutable=bool(idx % 2))      # alternate the two classes
+        if (ht + amount) % 3 != 0:
+            # one object is normally signed for all its inputs in turn: the digest asked for must not depend on
+            # digests computed on the SAME object before - for another input, and for the other base hash types
+            # (seeded change C04-17: per-object memo of the BIP143 midstates keyed without the input index)
+            for j, h2 in (((idx + 1) % max(len(t.vin), 1), ht), (idx, ht ^ 2), ((idx + 1) % max(len(t.vin), 1), ht ^ 0x80)):
+                try:
+                    SignatureHash(CScript(script), t, j, h2, amount=amount, sigversion=SIGVERSION_WITNESS_V0)
+                except Exception:  # noqa
+                    pass
         return SignatureHash(CScript(script), t, idx, ht, amount=amount, sigversion=SIGVERSION_WITNESS_V0)
     raise ValueError('op')
